@@ -18,7 +18,7 @@ from .facts import callee, op_place, strip_generics
 OPT, RES, CF = 'core::option::Option', 'core::result::Result', 'core::ops::control_flow::ControlFlow'
 
 PRESERVE = {'map', 'as_ref', 'as_mut', 'as_deref', 'as_deref_mut', 'cloned', 'copied', 'inspect', 'map_err', 'inspect_err', 'clone', 'to_owned',
-            'borrow', 'borrow_mut', 'deref', 'deref_mut', 'into', 'from', 'as_slice', 'as_str'}
+            'borrow', 'borrow_mut', 'deref', 'deref_mut', 'into', 'from', 'as_slice', 'as_str', 'context', 'with_context'}
 
 
 class TagInterp(Interp):
